@@ -1,2 +1,65 @@
-(* C08 — placeholder while the model is validated; theorems follow *)
-From QV.Model Require Import Base Matrix Arith Expr Extrema Sat PCBO.
+(* C08 — the constrained optimum survives penalisation, reduction and solution conversion.
+   Statements only; proofs in Proofs/WorkflowProofs.v.
+
+   C08_abstract is the general argument, for any number of constraints: objective f, constraint j with truth R j, weight
+   lam j, penalty function G j (non-negative, zero reachable by moving only its own ancillas exactly when R j holds, at
+   least 1 otherwise), weights above the spread W of f.  Its hypotheses are exactly what C02 / C03 / C06 prove per
+   constraint, plus G_later (a penalty does not read the ancillas of constraints added after it).
+   C08_one_constraint discharges all of them for a PCBO holding an objective and one comparison constraint;
+   C08_reduced continues through degree reduction (C01) and convert_solution. *)
+From QV.Model Require Import Base Matrix Arith Expr Extrema Sat PCBO Convert Reduce.
+From QV.Proofs Require Import BaseProofs KeyProofs ArithProofs InvProofs ConvertProofs PenaltyArith PCBOProofs ReduceProofs WorkflowProofs.
+Open Scope Q_scope.
+
+Theorem C08_abstract : forall (f : env -> Q) (n : nat) (G : nat -> env -> Q) (lam : nat -> Q) (R : nat -> env -> Prop)
+    (fr : nat -> label -> Prop) (W : Q),
+  (forall j x, (j < n)%nat -> boolean_env x -> 0 <= G j x) ->
+  (forall j x, (j < n)%nat -> boolean_env x -> R j x -> exists x', boolean_env x' /\ agree_off (fr j) x x' /\ G j x' == 0) ->
+  (forall j x, (j < n)%nat -> boolean_env x -> ~ R j x -> 1 <= G j x) ->
+  (forall j x, R j x \/ ~ R j x) ->
+  (forall x x', boolean_env x -> boolean_env x' -> agree_off (anyfr n fr) x x' -> f x == f x') ->
+  (forall j x x', (j < n)%nat -> boolean_env x -> boolean_env x' -> agree_off (anyfr n fr) x x' -> (R j x <-> R j x')) ->
+  (forall i j x x', (i < j)%nat -> (j < n)%nat -> boolean_env x -> boolean_env x' -> agree_off (fr j) x x' -> G i x == G i x') ->
+  (forall x x', boolean_env x -> boolean_env x' -> f x - f x' <= W) ->
+  (forall j, (j < n)%nat -> W < lam j) ->
+  forall x0 xs, boolean_env x0 -> (forall j, (j < n)%nat -> R j x0) ->
+  boolean_env xs -> (forall x, boolean_env x -> H f n G lam xs <= H f n G lam x) ->
+  (forall j, (j < n)%nat -> R j xs) /\
+  (forall x, boolean_env x -> (forall j, (j < n)%nat -> R j x) -> f xs <= f x) /\
+  H f n G lam xs == f xs.
+Proof. exact minimiser_feasible_optimal. Qed.
+Print Assumptions C08_abstract.
+
+Theorem C08_one_constraint : forall r m Pin lam lt b m' w t W x0 xs,
+  add_constraint r m Pin lam lt b = Ok (m', w, t) -> bkind (kd m) -> w <> WUnsat ->
+  let f := fun x => eval x (tm m) in
+  let pv := fun x => eval x Pin in
+  int_v pv -> bvalid pv b -> no_anc Pin -> no_anc (tm m) ->
+  (forall x x', boolean_env x -> boolean_env x' -> f x - f x' <= W) -> W < lam ->
+  boolean_env x0 -> rel_prop r (pv x0) ->
+  boolean_env xs -> (forall x, boolean_env x -> eval xs (tm m') <= eval x (tm m')) ->
+  rel_prop r (pv xs) /\ (forall x, boolean_env x -> rel_prop r (pv x) -> f xs <= f x) /\ eval xs (tm m') == f xs.
+Proof. exact workflow_one. Qed.
+Print Assumptions C08_one_constraint.
+
+Theorem C08_reduced : forall r m Pin lam lt b m' w t W x0 out deg l pairs D s,
+  add_constraint r m Pin lam lt b = Ok (m', w, t) -> bkind (kd m) -> w <> WUnsat ->
+  let f := fun x => eval x (tm m) in
+  let pv := fun x => eval x Pin in
+  int_v pv -> bvalid pv b -> no_anc Pin -> no_anc (tm m) ->
+  (forall x x', boolean_env x -> boolean_env x' -> f x - f x' <= W) -> W < lam ->
+  boolean_env x0 -> rel_prop r (pv x0) ->
+  reduce_degree m' out deg l pairs = Ok D -> bmat out -> Inv m' -> is_labelled (kd m') = true ->
+  (forall ms, mapped_self (mp m') (tm m') = Ok ms -> forall k v, In (k, v) ms -> Qabs v <= lam_fun l v) ->
+  boolean_env s -> (forall s', boolean_env s' -> eval s (tm D) <= eval s' (tm D)) ->
+  let xs := pull (mp m') s in
+  rel_prop r (pv xs) /\ (forall x, boolean_env x -> rel_prop r (pv x) -> f xs <= f x) /\ eval s (tm D) == f xs.
+Proof. exact workflow_reduced. Qed.
+Print Assumptions C08_reduced.
+
+(* non-vacuity: minimise -x0 - x1 - x2 subject to x0 + x1 + x2 - 2 <= 0 with weight 4 > 3 = spread *)
+Example C08_example :
+  exists m m' w t, m_create KPcbo [([0]%nat, -(1)); ([1]%nat, -(1)); ([2]%nat, -(1))] = Ok m
+    /\ add_constraint RLe m [([0]%nat, 1); ([1]%nat, 1); ([2]%nat, 1); ([], -(2))] 4 true (None, None) = Ok (m', w, t)
+    /\ w = WNone /\ (0 < anc m')%nat.
+Proof. eexists. eexists. eexists. eexists. vm_compute. repeat split. apply Nat.lt_0_succ. Qed.
